@@ -742,3 +742,57 @@ def prog():
         return {"V.the_failing_entry_was_not_made": "entered" not in self._reached,
                 "V.fails_with_the_variable's_own_exception": isinstance(e, TypeError),
                 "F.guard_state_restored": self.state_clean(c)}
+
+
+@register
+class SchemaWhileAnywhereInTheFile(_Schema):
+    """while _while(c): ... _endwhile() with no branch variables, three iterations, the loop written near the top of
+    the client's file or three hundred lines further down (`_while` recognises "the same loop again" by the call's
+    source line): every iteration RE-ENTERS the one region -- the guard inside is the running conjunction, and after
+    `_endwhile` the stack is empty and guard, error flag and constant one are those from before the loop."""
+    name = "pysnark.branching:_while#same_loop_any_line"
+    vprops = ("C09", "C08")
+    fprops = ("C09", "C08")
+    cprops = tprops = ()
+    skip_facets = "CTN"
+
+    def configs(self, tier):
+        return [dict(cond=k, bits=3, line=l) for k in ("secret_lc", "public_true") for l in (6, 300, 70000)]
+
+    def setup(self, c, cfg):
+        apply_mode(c, "plain", bitlength=cfg["bits"])
+        br = self.br(c)
+        rt = c.rt
+        conds = tuple(_cond(c, cfg["cond"], "c%d" % i) for i in range(3))
+        self._ops = conds
+        self._seen = []
+
+        def probe(i):
+            self._seen.append((i, rt.guard, rt.ignore_errors(), rt.LinComb.ONE, len(stack_of[0].stack)))
+        stack_of = []
+        return c.client("\n" * (cfg["line"] - 6) + """
+def prog():
+    _ = BranchingValues()
+    stack_of.append(_)
+    n = 0
+    while n < 3 and _while(conds[n]):
+        probe(n)
+        n += 1
+    _endwhile()
+    return _
+""", conds=conds, probe=probe, stack_of=stack_of, **API(br)), (), {}
+
+    def pre(self, c):
+        return [(1 << (c.bitlength + 1)) < c.p]
+
+    def post(self, c, r, *a_):
+        d = {"V.three_iterations": [s[0] for s in self._seen] == [0, 1, 2],
+             "F.one_region_for_the_whole_loop": all(s[4] == 1 for s in self._seen),
+             "F.stack_empty": len(r.stack) == 0, "F.guard_state_restored": self.state_clean(c)}
+        if c.cfg["cond"] == "secret_lc" and d["V.three_iterations"]:
+            run = z3.BoolVal(True)
+            for (i, g, ie_, one, depth), cond in zip(self._seen, self._ops):
+                run = And(run, c.v(cond) == 1)
+                d["V.guard[%d]" % i] = And(g is not None and one is g, Eq(c.v(g), If(run, 1, 0)) if g is not None else False)
+                d["V.errors_off_iff_dead[%d]" % i] = formula(ie_) == Not(run)
+        return d
